@@ -7,6 +7,7 @@
 //!   phrase `Phrase::append` and `Phrase::ifs_join` on random phrases
 //!   read   `read::assigning::assign` on attributed texts, and `read [-r] v...` scripts on
 //!          a standard input in the virtual shell
+//!   single `expand_word` (the single-field mode used for assignment values) on words
 //!   words  commands `args WORD...` in a generated environment (variables, IFS,
 //!          positional parameters, nounset), through `expand_words` on the AST the
 //!          real parser produced (api) and as a script in the virtual shell (script)
@@ -19,7 +20,7 @@ use futures_util::FutureExt as _;
 use yash_env::option::{Option as ShOption, State as OptState};
 use yash_env::variable::{IFS, Scope, Value, VariableSet};
 use yash_semantics::expansion::phrase::Phrase;
-use yash_semantics::expansion::{ErrorCause, expand_words};
+use yash_semantics::expansion::{ErrorCause, expand_word, expand_words};
 use yash_syntax::syntax::{
     Modifier, Param, ParamType, SimpleCommand, SpecialParam, SwitchAction, SwitchCondition, Text,
     TextUnit, TrimLength, TrimSide, Word, WordUnit,
@@ -126,7 +127,10 @@ fn stream_ws(w: &mut CasesWriter) {
 // ---------------------------------------------------------------------------
 // stream: split
 
-const IFS_POOL: [&str; 14] = [
+const IFS_POOL: [&str; 17] = [
+    ": \t:\t",
+    "-\n -\n ",
+    "\t:\u{3000}, ",
     " \t\n",
     "",
     ":",
@@ -205,7 +209,11 @@ fn random_attr_char(r: &mut Rng) -> AttrChar {
 
 fn stream_split(w: &mut CasesWriter, rng: &mut Rng, args: &Args) {
     // corpus: the examples of the module documentation and of POSIX
-    let corpus: [(&str, &str); 16] = [
+    let corpus: [(&str, &str); 20] = [
+        (",  :\t", "a\t\tb"),
+        (": :\n", "a\n\nb:\nc"),
+        (" x y ", "axbyycxyd"),
+        ("\u{a0}-\u{a0}", "a\u{a0}\u{a0}b-\u{a0}-c"),
         (" -", "abc"),
         (" -", "  abc   "),
         (" -", ""),
@@ -622,6 +630,61 @@ fn run_script(env_spec: &EnvSpec, cmd_texts: &[String]) -> CmdOut {
     (out, stop)
 }
 
+fn error_kind(cause: &ErrorCause) -> u32 {
+    match cause {
+        ErrorCause::UnsetParameter { .. } => 1,
+        ErrorCause::VacantExpansion(_) => 2,
+        ErrorCause::NonassignableParameter(_) => 3,
+        ErrorCause::AssignReadOnly(_) => 4,
+        _ => 9,
+    }
+}
+
+fn make_env(env_spec: &EnvSpec) -> yash_env::Env<vsh::Sys> {
+    let mut env = yash_env::Env::new_virtual();
+    env.options.set(ShOption::Glob, OptState::Off);
+    if env_spec.nounset {
+        env.options.set(ShOption::Unset, OptState::Off);
+    }
+    for (n, v) in &env_spec.vars {
+        env.variables.get_or_new(n.clone(), Scope::Global).assign(v.clone(), None).unwrap();
+    }
+    env.variables.positional_params_mut().values = env_spec.positional.clone();
+    env
+}
+
+/// `expand_word` (single-field mode) on every word of the text; one case per word.
+fn emit_single(w: &mut CasesWriter, env_spec: &EnvSpec, text: &str) {
+    let Some(words) = parse_words(text) else { return };
+    for word in &words {
+        let Some(term_w) = word_coq(word) else { return };
+        let r = catch_unwind(AssertUnwindSafe(|| {
+            let mut env = make_env(env_spec);
+            match expand_word(&mut env, word).now_or_never().expect("expansion blocked") {
+                Ok((field, _)) => Ok(field.value),
+                Err(e) => Err(error_kind(&e.cause)),
+            }
+        }))
+        .unwrap_or(Err(100));
+        let out = match &r {
+            Ok(v) => format!("(inl {})", coq::s(v)),
+            Err(k) => format!("(inr {})", coq::n(*k as u64)),
+        };
+        let term = format!("(CSingle {} {} {})", env_spec.coq(), term_w, out);
+        let json = format!(
+            "{{\"stream\":\"single\",\"env\":{},\"word\":{},\"value\":{}}}",
+            env_spec.json(),
+            json_str(&word.to_string()),
+            match &r {
+                Ok(v) => json_str(v),
+                Err(k) => format!("\"error {k}\""),
+            }
+        );
+        w.count("stream:single");
+        w.push(&term, &json, &[], Some(format!("single|{}|{}", env_spec.json(), word)));
+    }
+}
+
 fn strs_coq(l: &[String]) -> String {
     if l.is_empty() {
         return "(@nil str)".into();
@@ -830,6 +893,9 @@ fn stream_words(w: &mut CasesWriter, rng: &mut Rng, args: &Args) {
         let texts: Vec<String> = vec![cmd.join(" "), "\"${x-U}\" \"${y-U}\" \"${u-U}\"".to_string()];
         assert!(emit_words(w, &base, &texts, &[true, false], "corpus"), "corpus word not supported: {texts:?}");
     }
+    for t in ["$x $* \"$*\" $@ \"$@\" a\"$@\"b ${u-$@} ${u:=$*} '' \"\" \\a${e}"] {
+        emit_single(w, &base, t);
+    }
     let mut nu = base.clone();
     nu.nounset = true;
     for cmd in [&["$u"][..], &["\"${u}\""], &["${#u}"], &["${u%a}"], &["${u-ok}", "${u+no}", "$@", "$*", "${4-d}"], &["$4"], &["${u:=v}", "$u"]] {
@@ -844,6 +910,18 @@ fn stream_words(w: &mut CasesWriter, rng: &mut Rng, args: &Args) {
     for cmd in [&["${x%$z}", "${y%\\*b}", "${x%${y%\\*b}}", "${y#a$z}", "${y#a$z*}", "${y%%$z*}"][..]] {
         let texts: Vec<String> = vec![cmd.join(" ")];
         assert!(emit_words(w, &bs, &texts, &[true, false], "corpus"));
+    }
+    for ifs in [None, Some(""), Some(",:")] {
+        let mut e = base.clone();
+        e.vars.retain(|(n, _)| n != "IFS");
+        if let Some(i) = ifs {
+            e.vars.push(("IFS".into(), i.into()));
+        }
+        for cmd in [&["\"$*\"", "$*", "\"a$*b\"", "${u=$*}", "\"$u\"", "${x%$*}", "\"${4-$*}\""][..]] {
+            let texts: Vec<String> = vec![cmd.join(" ")];
+            assert!(emit_words(w, &e, &texts, &[true, false], "corpus"));
+            emit_single(w, &e, &texts[0]);
+        }
     }
     let mut nopos = base.clone();
     nopos.positional.clear();
@@ -915,6 +993,9 @@ fn stream_words(w: &mut CasesWriter, rng: &mut Rng, args: &Args) {
         texts.push("\"${x-U}\" \"${y-U}\" \"${u-U}\"".to_string());
         let modes: &[bool] = if made % 3 == 0 { &[true, false] } else { &[true] };
         if emit_words(w, &e, &texts, modes, "random") {
+            if made % 4 == 1 {
+                emit_single(w, &e, &texts[0]);
+            }
             made += 1;
         } else {
             w.count("words:rejected-by-parser-or-unsupported");
